@@ -27,7 +27,11 @@ PROPS = {
 
 PROPS["C06"] = dict(
     family="compare",
-    theorems=[],
+    theorems=T("C06", "sign_compare_eq_lex", "sign_compare_eq_lex_wchar", "wchar_high_units_signed_witness", "string_compare_eq_lex",
+               "lex_is_textbook", "antisymm", "antisymm_buffer", "trans", "trans_buffer", "zero_iff_eq", "zero_iff_eq_buffer",
+               "ci_zero_iff_fold_eq", "ci_preorder", "ops_agree", "operators_meaning", "compare_n_eq_take", "hash_congr", "hash_i_congr",
+               "case_map_only_ascii", "reads_only_common_prefix", "huge_length_difference", "narrowed_difference_was_wrong",
+               "narrowed_difference_ok_when_small"),
     rule="exhaustive: all ordered pairs of byte strings over {00,41,61,5A,7A,7F,80,FF} up to length 3 (quick: one side up to 2) and over {00,41,61,80,FF} up to "
          "length 4 (thorough) x prefix limits n in {none,0..5,SIZE_MAX} through every ST::string overload (compare / compare_n / compare_i / compare_ni with "
          "string, const char*, const char8_t*, null; ==, !=, <, less_i, equal_i, hash/hash_i equality), the same over the fold edges {@ A Z [ ` a z {}; all triples "
